@@ -1141,7 +1141,34 @@ def _name(id_):
     return ast.Name(id=id_, ctx=ast.Load())
 
 
+_PURE_CALLS = ("int", "float", "len", "abs", "np.int64", "numpy.int64", "np.float64", "numpy.float64", "np.intp", "numpy.intp")
+
+
+def _effect_free(e):
+    """evaluating e twice is evaluating it once: names, constants, attributes, subscripts, arithmetic, scalar conversions"""
+    for x in ast.walk(e):
+        if isinstance(x, ast.Call):
+            if dotted_name(x.func) not in _PURE_CALLS or x.keywords or any(isinstance(a, ast.Starred) for a in x.args):
+                return False
+        elif isinstance(x, (ast.NamedExpr, ast.Await, ast.Yield, ast.YieldFrom, ast.Lambda, ast.ListComp, ast.SetComp, ast.DictComp, ast.GeneratorExp)):
+            return False
+    return True
+
+
+def _unchain(t):
+    """a chained comparison `a o1 b o2 c ...` as the conjunction `a o1 b and b o2 c and ...` (same short circuit; the inner
+    operands are evaluated once in the chain and up to twice in the conjunction, so they must be free of effects)"""
+    if not isinstance(t, ast.Compare) or len(t.ops) < 2:
+        return t
+    xs = [t.left] + list(t.comparators)
+    if not all(_effect_free(x) for x in xs[1:-1]):
+        return t
+    return ast.BoolOp(op=ast.And(), values=[ast.Compare(left=copy.deepcopy(xs[k]), ops=[copy.deepcopy(t.ops[k])], comparators=[copy.deepcopy(xs[k + 1])])
+                                            for k in range(len(t.ops))])
+
+
 def _py_neg(t):
+    t = _unchain(t)
     if isinstance(t, ast.BoolOp):
         return ast.BoolOp(op=ast.And() if isinstance(t.op, ast.Or) else ast.Or(), values=[_py_neg(v) for v in t.values])
     if isinstance(t, ast.UnaryOp) and isinstance(t.op, ast.Not):
@@ -1252,6 +1279,22 @@ class _PyPrep:
             def visit_Name(self, n):
                 if isinstance(n.ctx, ast.Load) and n.id in prep.vec:
                     raise NotImplementedError("array `%s` used as a whole" % n.id)
+                return n
+
+            # `a <= b < c` is `a <= b and b < c` with b evaluated once: the same when evaluating b has no effect
+            def visit_Compare(self, n):
+                self.generic_visit(n)
+                return _unchain(n)
+
+            # `not (a < b)` -> `a >= b`, `not (p and q)` -> `not p or not q`, `not not p` -> p (scalars of finite data:
+            # the same reading of a negated comparison as the else arm of a test gets); a negated flag is left as it is
+            def visit_UnaryOp(self, n):
+                self.generic_visit(n)
+                if isinstance(n.op, ast.Not):
+                    try:
+                        return _py_neg(n.operand)
+                    except NotImplementedError:
+                        return n
                 return n
         return T().visit(copy.deepcopy(e))
 
@@ -1823,8 +1866,12 @@ def compare_engines(py_fn, c_decl):
     """guarded effects (lists of Eff) and state initial values of the Python and the C engine"""
     try:
         pyir = sibling.lower_python(py_fn)
-        A, ia = engine_effects(pyir, {p: "P%d" % i for i, p in enumerate(_array_params(py_fn))})
         cir = sibling.lower_c(c_decl)
+    except (NotImplementedError, KeyError, AssertionError) as e:
+        # (the lowering refuses an operator or a statement form it does not have with one of these)
+        raise AnalysisError("sibling lowering met an unsupported construct: %s %s" % (type(e).__name__, e))
+    try:
+        A, ia = engine_effects(pyir, {p: "P%d" % i for i, p in enumerate(_array_params(py_fn))})
         B, ib = engine_effects(cir, sibling.c_roles(c_decl))
     except NotImplementedError as e:
         raise AnalysisError("sibling lowering met an unsupported construct: %s" % e)
@@ -2746,6 +2793,22 @@ def _value_cases(e, flags):
         return [(v, _why(truthy if is_or else falsy, w)) for v, w in _value_cases(first, flags)] + \
                [(v, _why(falsy if is_or else truthy, w)) for v, w in _value_cases(rest, flags)]
     return [(e, None)]
+
+
+def _cond_cases(e, flags):
+    """the values a (nested) conditional expression can take as [(value, [(test, outcome), ...])], arms that the flags rule out
+    left out; None when a value is one of the forms `a or b` / `a and b` (their test is the truth of a value, not a condition)"""
+    if isinstance(e, ast.IfExp):
+        t = eval_test(e.test, flags)
+        if t is not None:
+            return _cond_cases(e.body if t else e.orelse, flags)
+        a, b = _cond_cases(e.body, flags), _cond_cases(e.orelse, flags)
+        if a is None or b is None:
+            return None
+        return [(v, [(e.test, True)] + c) for v, c in a] + [(v, [(e.test, False)] + c) for v, c in b]
+    if isinstance(e, ast.BoolOp):
+        return None
+    return [(e, [])]
 
 
 def _why(a, b):
@@ -3896,13 +3959,100 @@ def _truths(t, truth):
     return [(t, truth)]
 
 
-def _vacuous_limits(st, flags, lo_p, hi_p):
-    """the sides ('lo' / 'hi') whose given limit this path knows to remove nothing: a branch condition that held says
-    limit <= smallest datum (largest datum <= limit).  Only the comparison as written counts, not the negation of its
+def _length_of(e):
+    """X when e is the number of elements of the 1-d array X: X.size / len(X) / X.shape[0]"""
+    if isinstance(e, ast.Attribute) and e.attr == "size":
+        return e.value
+    if isinstance(e, ast.Call) and isinstance(e.func, ast.Name) and e.func.id == "len" and len(e.args) == 1 and not e.keywords:
+        return e.args[0]
+    b = pat.match("_X.shape[0]", e)
+    return b["_X"] if b is not None else None
+
+
+def _np_call1(e, names):
+    """the single argument A of np.<name>(A) or A.<name>() (no other arguments), else None"""
+    if not (isinstance(e, ast.Call) and isinstance(e.func, ast.Attribute) and e.func.attr in names and not e.keywords):
+        return None
+    if norm(e.func.value) in _NP:
+        return e.args[0] if len(e.args) == 1 and not isinstance(e.args[0], ast.Starred) else None
+    return e.func.value if not e.args else None
+
+
+def _is_all_data(x):
+    """x has one element per datum: the data, the sort index, the data gathered in sorted order"""
+    if x is None:
+        return False
+    x = _uncopied(x)
+    if norm(x) == "self.x" or _is_sort_index(x):
+        return True
+    b = pat.match("self.x[_S]", x)
+    return b is not None and _is_sort_index(b["_S"])
+
+
+def _kept_mask(e):
+    """the boolean mask M over the data when e is the number of data M keeps: the length of np.where(M)[0] / np.nonzero(M)[0] /
+    np.flatnonzero(M) / M.nonzero()[0], np.count_nonzero(M), M.sum() / np.sum(M)"""
+    x = _length_of(e)
+    if x is not None:
+        x = _uncopied(x)
+        if isinstance(x, ast.Subscript) and const_value(x.slice) == 0:
+            return _np_call1(x.value, ("where", "nonzero"))
+        return _np_call1(x, ("flatnonzero",))
+    return _np_call1(e, ("count_nonzero", "sum"))
+
+
+def _keeps_everything(c, tr, flags, lo_p, hi_p, only_limits=False):
+    """the sides ('lo' / 'hi') on which the elementary condition c (with outcome tr) says that the limit of the call removes
+    nothing: c compares the number of data kept by a mask with the number of data (`np.where(M)[0].size == s.size`,
+    `np.count_nonzero(M) >= len(self.x)`, the negation of `!=` / `<`) or is `M.all()` / `np.all(M)`, so every datum satisfies
+    every conjunct of M; a conjunct `data >= min` / `data > min` (`data <= max` / `data < max`) whose bound is the limit itself
+    then says that no datum lies outside that limit.  (A NaN limit keeps nothing: the condition is false for it unless there
+    are no data at all, and then there is nothing to remove.)
+    only_limits: nothing is returned unless every other conjunct of M is an inclusive comparison with the data extreme of its
+    side, which every datum meets -- then the *negation* of c says that a datum lies outside one of the returned limits."""
+    m = None
+    if isinstance(c, ast.Compare) and len(c.ops) == 1:
+        a, b, op = c.left, c.comparators[0], type(c.ops[0])
+        if _is_all_data(_length_of(a)) and not _is_all_data(_length_of(b)):
+            a, b = b, a
+            op = {ast.Lt: ast.Gt, ast.Gt: ast.Lt, ast.LtE: ast.GtE, ast.GtE: ast.LtE}.get(op, op)
+        if _is_all_data(_length_of(b)) and ((tr and op in (ast.Eq, ast.GtE)) or (not tr and op in (ast.NotEq, ast.Lt))):
+            m = _kept_mask(a)
+    elif tr:
+        m = _np_call1(c, ("all",))
+    if m is None:
+        return set()
+    out, others = set(), True
+    for cj in _conjuncts(m):
+        bd = None
+        if isinstance(cj, ast.Compare) and len(cj.ops) == 1:
+            for x in (cj.left, cj.comparators[0]):
+                b = pat.match("self.x[_S]", x)
+                if b is not None and _is_sort_index(b["_S"]):
+                    bd = _bound(cj, b["_S"])
+                    break
+            else:
+                bd = _bound(cj, _n("self.sort_index"))
+        if bd is None:
+            return set()                       # not a conjunction of comparisons of the data: not known to be a boolean mask over them
+        side, inc, lim, _ = bd
+        vals = [v for v, _ in _value_cases(_simp(lim, flags), flags)]
+        if all(_is_name(v, lo_p if side == "lo" else hi_p) for v in vals):
+            out.add(side)
+        elif not (inc and all(_data_extreme(v) == ("min" if side == "lo" else "max") for v in vals)):
+            others = False                     # a conjunct that is neither a limit of the call nor a bound that every datum meets
+    return out if others or not only_limits else set()
+
+
+def _vacuous_limits(conds, flags, lo_p, hi_p):
+    """the sides ('lo' / 'hi') whose given limit the conditions [(test, outcome)] of a path say to remove nothing: a branch
+    condition that held says limit <= smallest datum (largest datum <= limit), or that the filter keeps every datum
+    (_keeps_everything).  Only the comparison as written counts, not the negation of its
     opposite (that one also holds for a NaN limit, which selects nothing)."""
     out = set()
-    for t, truth in st.conds:
+    for t, truth in conds:
         for c, tr in _truths(_simp(t, flags), truth):
+            out |= _keeps_everything(c, tr, flags, lo_p, hi_p)
             if not (tr and isinstance(c, ast.Compare) and len(c.ops) == 1):
                 continue
             a, b, op = c.left, c.comparators[0], type(c.ops[0])
@@ -4061,94 +4211,110 @@ def limits(chk, repo):
                     v_filt.append(None)
                     continue
                 wcases = _value_cases(w, flags)
+                split = [(w, [])]
                 if len(wcases) > 1:
-                    # the filter is selected by a value test that the presence of the limits does not decide
-                    unf = [c for v, c in wcases if _is_sort_index(v)]
-                    if unf and (lo is not None or hi is not None):
-                        v_appl.append(False)
-                        why["appl"].add("the unfiltered sort index is used when %s although a limit is given" % unf[0])
-                    else:
-                        v_filt.append(None)
-                    continue
-                if _is_sort_index(w):
-                    # unfiltered: right when no limit was given, or on a path whose conditions say that every given limit lies at or
-                    # beyond the data extreme on its side (the filter would keep everything); wrong when a limit is given and
-                    # nothing on the path looks at its value
-                    need = {side for side, g in (("lo", lo), ("hi", hi)) if g is not None}
-                    if need <= _vacuous_limits(st, flags, lo_p, hi_p):
-                        v_appl.append(True)
-                    else:
-                        # side by side: a given limit that is not known to be vacuous must at least have been looked at by a
-                        # condition of this path (then the path may know something about it that is not recognised here: no
-                        # verdict); a given limit whose value no condition of the path reads is simply not applied
-                        open_sides = need - _vacuous_limits(st, flags, lo_p, hi_p)
-                        und = [_simp(t, flags) for t, _ in st.conds if eval_test(_simp(t, flags), flags) is None]
-                        unread = sorted(p for p, side in ((lo_p, "lo"), (hi_p, "hi")) if side in open_sides and not any(_mentions(t, {p}) for t in und))
-                        v_appl.append(False if unread else None)
-                        if unread:
-                            given = " and ".join(p for p, g in ((lo_p, lo), (hi_p, hi)) if g is not None)
-                            on = " and ".join("%s`%s`" % ("" if truth else "not ", norm(_simp(t, flags))) for t, truth in st.conds
-                                              if eval_test(_simp(t, flags), flags) is None and _mentions(_simp(t, flags), {lo_p, hi_p}))
-                            why["appl"].add("with %s given, the unfiltered sort index reaches the engine on the path where %s: no condition of that path reads the value of %s, so data outside that limit stay in the sort index"
-                                            % (given, on or "no condition on the limits holds", " / ".join(unread)))
-                    v_filt.append(True)
-                    continue
-                b = pat.match("_S[_SEL]", _uncopied(w))
-                if b is None or not _is_sort_index(b["_S"]):
-                    v_filt.append(None)
-                    continue
-                s, sel = b["_S"], b["_SEL"]
-                found = {"lo": [], "hi": []}           # side -> [(inclusive, bound)]
-                if isinstance(sel, ast.Slice):
-                    if sel.step is not None:
-                        v_filt.append(None)
-                        continue
-                    okk = True
-                    for side, e, whole in (("lo", sel.lower, lambda e: e is None or const_value(e) == 0), ("hi", sel.upper, lambda e: e is None or norm(e) in (norm(s) + ".size", "len(%s)" % norm(s), "self.x.size"))):
-                        if whole(e):
-                            continue
-                        ss = _searchsorted(e, s)
-                        if ss is None:
-                            okk = False
+                    # the filter is selected by a value test that the presence of the limits does not decide: every arm of a
+                    # conditional expression is judged like the same assignment under an `if` with that test (the test joins the
+                    # conditions of the path); the value forms `a or b` / `a and b` are not split that way
+                    split = _cond_cases(w, flags)
+                    if split is None:
+                        unf = [c for v, c in wcases if _is_sort_index(v)]
+                        if unf and (lo is not None or hi is not None):
+                            v_appl.append(False)
+                            why["appl"].add("the unfiltered sort index is used when %s although a limit is given" % unf[0])
                         else:
-                            found[side].append((ss[1] == ("left" if side == "lo" else "right"), ss[0]))
-                    if not okk:
+                            v_filt.append(None)
+                        continue
+                for w, extra in split:
+                    conds = list(st.conds) + extra
+                    if _is_sort_index(w):
+                        # unfiltered: right when no limit was given, or on a path whose conditions say that every given limit lies at or
+                        # beyond the data extreme on its side (the filter would keep everything); wrong when a limit is given and
+                        # nothing on the path looks at its value
+                        need = {side for side, g in (("lo", lo), ("hi", hi)) if g is not None}
+                        if need <= _vacuous_limits(conds, flags, lo_p, hi_p):
+                            v_appl.append(True)
+                        else:
+                            # side by side: a given limit that is not known to be vacuous must at least have been looked at by a
+                            # condition of this path (then the path may know something about it that is not recognised here: no
+                            # verdict); a given limit whose value no condition of the path reads is simply not applied
+                            open_sides = need - _vacuous_limits(conds, flags, lo_p, hi_p)
+                            # the path itself says that its limits remove a datum (the negation of "the filter keeps everything")
+                            cut = [(c, tr, sd) for t, truth in conds for c, tr in _truths(_simp(t, flags), truth)
+                                   for sd in [_keeps_everything(c, not tr, flags, lo_p, hi_p, only_limits=True)] if sd and sd <= need]
+                            if cut:
+                                v_appl.append(False)
+                                why["appl"].add("the unfiltered sort index reaches the engine on the path where %s`%s`, i.e. where a datum lies outside the given limit(s)"
+                                                % ("" if cut[0][1] else "not ", norm(cut[0][0])))
+                                v_filt.append(True)
+                                continue
+                            und = [_simp(t, flags) for t, _ in conds if eval_test(_simp(t, flags), flags) is None]
+                            unread = sorted(p for p, side in ((lo_p, "lo"), (hi_p, "hi")) if side in open_sides and not any(_mentions(t, {p}) for t in und))
+                            v_appl.append(False if unread else None)
+                            if unread:
+                                given = " and ".join(p for p, g in ((lo_p, lo), (hi_p, hi)) if g is not None)
+                                on = " and ".join("%s`%s`" % ("" if truth else "not ", norm(_simp(t, flags))) for t, truth in conds
+                                                  if eval_test(_simp(t, flags), flags) is None and _mentions(_simp(t, flags), {lo_p, hi_p}))
+                                why["appl"].add("with %s given, the unfiltered sort index reaches the engine on the path where %s: no condition of that path reads the value of %s, so data outside that limit stay in the sort index"
+                                                % (given, on or "no condition on the limits holds", " / ".join(unread)))
+                        v_filt.append(True)
+                        continue
+                    b = pat.match("_S[_SEL]", _uncopied(w))
+                    if b is None or not _is_sort_index(b["_S"]):
                         v_filt.append(None)
                         continue
-                else:
-                    m = _selection(sel)
-                    cj = [_bound(c, s) for c in _conjuncts(m)] if m is not None else [None]
-                    if any(c is None for c in cj):
-                        v_filt.append(None)
-                        continue
-                    if not all(c[3] for c in cj):
-                        v_filt.append(False)        # a mask over the data in original order selects from the *sorted* index
-                        continue
-                    for side, inc, bd, _ in cj:
-                        found[side].append((inc, bd))
-                v_filt.append(True)
-                v_appl.append(True)
-                # every given limit is applied, inclusively, with the limit itself as bound; any other bound is an (inclusive) data extreme
-                for side, given, par, ext in (("lo", lo, lo_p, "min"), ("hi", hi, hi_p, "max")):
-                    loc, hit = [], False
-                    for inc, bd in found[side]:
-                        # every value the bound can take: the limit itself, or a (vacuous) data extreme
-                        kinds = []
-                        for v, cond in _value_cases(_simp(bd, flags), flags):
-                            if given is not None and _is_name(v, par):
-                                kinds.append("limit")
-                            elif _data_extreme(v) == ext:
-                                kinds.append("extreme")    # a vacuous bound; an exclusive one would drop the extreme datum
-                                if given is not None and cond:
-                                    why["incl"].add("with %s given, the %s bound of the filter is the data extreme `%s` when %s" % (par, "lower" if side == "lo" else "upper", norm(v), cond))
+                    s, sel = b["_S"], b["_SEL"]
+                    found = {"lo": [], "hi": []}           # side -> [(inclusive, bound)]
+                    if isinstance(sel, ast.Slice):
+                        if sel.step is not None:
+                            v_filt.append(None)
+                            continue
+                        okk = True
+                        for side, e, whole in (("lo", sel.lower, lambda e: e is None or const_value(e) == 0), ("hi", sel.upper, lambda e: e is None or norm(e) in (norm(s) + ".size", "len(%s)" % norm(s), "self.x.size"))):
+                            if whole(e):
+                                continue
+                            ss = _searchsorted(e, s)
+                            if ss is None:
+                                okk = False
                             else:
-                                kinds.append(None)
-                        loc.append(None if None in kinds else bool(inc))
-                        if kinds and all(k == "limit" for k in kinds):
-                            hit = True
-                    if given is not None and not hit:
-                        loc.append(None if None in loc else False)      # the limit was given but is not applied (for every value it can have)
-                    v_incl.extend(loc or [True])
+                                found[side].append((ss[1] == ("left" if side == "lo" else "right"), ss[0]))
+                        if not okk:
+                            v_filt.append(None)
+                            continue
+                    else:
+                        m = _selection(sel)
+                        cj = [_bound(c, s) for c in _conjuncts(m)] if m is not None else [None]
+                        if any(c is None for c in cj):
+                            v_filt.append(None)
+                            continue
+                        if not all(c[3] for c in cj):
+                            v_filt.append(False)        # a mask over the data in original order selects from the *sorted* index
+                            continue
+                        for side, inc, bd, _ in cj:
+                            found[side].append((inc, bd))
+                    v_filt.append(True)
+                    v_appl.append(True)
+                    # every given limit is applied, inclusively, with the limit itself as bound; any other bound is an (inclusive) data extreme
+                    for side, given, par, ext in (("lo", lo, lo_p, "min"), ("hi", hi, hi_p, "max")):
+                        loc, hit = [], False
+                        for inc, bd in found[side]:
+                            # every value the bound can take: the limit itself, or a (vacuous) data extreme
+                            kinds = []
+                            for v, cond in _value_cases(_simp(bd, flags), flags):
+                                if given is not None and _is_name(v, par):
+                                    kinds.append("limit")
+                                elif _data_extreme(v) == ext:
+                                    kinds.append("extreme")    # a vacuous bound; an exclusive one would drop the extreme datum
+                                    if given is not None and cond:
+                                        why["incl"].add("with %s given, the %s bound of the filter is the data extreme `%s` when %s" % (par, "lower" if side == "lo" else "upper", norm(v), cond))
+                                else:
+                                    kinds.append(None)
+                            loc.append(None if None in kinds else bool(inc))
+                            if kinds and all(k == "limit" for k in kinds):
+                                hit = True
+                        if given is not None and not hit:
+                            loc.append(None if None in loc else False)      # the limit was given but is not applied (for every value it can have)
+                        v_incl.extend(loc or [True])
     wh = fi.where()
 
     def because(kind, v):
